@@ -108,6 +108,15 @@ def corpus():
     cs.append(("corpus-pointer-keys-derived-get", ["hash 6"] + sum((["i %d %d" % (k, k + 1), "g %d" % k] for k in range(0, 45)), []) +
                ["g 100", "r 7", "g 7", "x 7 70", "g 7", "it", "sz"]))
     cs.append(("corpus-empty", ["hash 0", "g 1", "r 1", "it", "sz"]))
+    # seeded change r8-2 (find() const lost its `if(!_size) return end()` guard: hash % 0 on a map that never had a table):
+    # the const interface (find/end/size through const hash_map &, taken by every g / r / sz) on a never-populated map for
+    # every hash kind / instantiation, then populated, then emptied again, then refilled
+    for kind in (0, 1, 2, 3, 4, 5, 6):
+        cs.append(("corpus-const-view-fresh-h%d" % kind, ["hash %d" % kind, "sz", "g 0", "g 42", "r 42", "g 42", "it",
+                   "x 42 1", "g 0", "g 42", "sz", "r 42", "g 42", "g 0", "sz", "it",
+                   "i 7 70", "g 7", "g 42", "r 7", "g 7", "sz"]))
+    cs.append(("corpus-const-view-fill-drain", ["hash 0", "g 3"] + ["i %d %d" % (k, k + 1) for k in range(25)] + ["g %d" % k for k in range(25)] +
+               ["g 99"] + ["r %d" % k for k in range(25)] + ["g %d" % k for k in range(25)] + ["sz", "it", "g 99"]))
     # seeded change r4-2 (_hasher became a reference to the caller's object): the caller re-seeds its hasher after filling the map
     cs.append(("corpus-reseed-caller-hasher", ["hash 0"] + ["i %d %d" % (k, k + 1) for k in range(15)] + ["reseed 1"] +
                ["g %d" % k for k in range(15)] + ["r 3", "x 4 44", "x 99 9", "reseed 3", "i 200 1", "g 200", "g 99", "it", "sz"]))
